@@ -131,3 +131,39 @@ def model_check(rep, jobs, expect_ok=True):
         if zero:
             raise common.MachineryError(
                 f'{module}/{cfg}: actions never taken: {zero}')
+
+
+def adoption_chain(it, names=None):
+    """[(tokens, mutator)] for every write of the run, in order; `names` maps
+    a hierarchical task description to the mutator class name."""
+    chain = []
+    cur = None
+    main = it.conv.main_events()
+    for e in main:
+        if e['ev'] == 'round':
+            cur = e['mut']
+        elif e['ev'] == 'recv' and e.get('strat') == 'hier' and e.get('ok'):
+            n = e['name']
+            if n.startswith('(global) '):
+                n = n[len('(global) '):]
+            cur = (names or {}).get(n, n)
+        elif e['ev'] == 'write':
+            chain.append((tuple(e['toks']), cur))
+    return chain
+
+
+def revisits(chain):
+    """[(i, j, mutators of steps i+1..j)] for inputs adopted again after a
+    different input was adopted in between."""
+    out = []
+    first = {}
+    for j, (t, m) in enumerate(chain):
+        if t in first:
+            i = first[t]
+            if any(chain[k][0] != t for k in range(i, j)):
+                out.append((i, j, sorted({chain[k][1] or '?'
+                                          for k in range(i + 1, j + 1)})))
+                first[t] = j
+        else:
+            first[t] = j
+    return out
